@@ -321,8 +321,12 @@ def vendor_case(r):
 def vendor_silence_stream(ctx, r):
     """a unit in a vendor line format followed by silence: a converted line ends a transfer (the connection may stay
     idle for ever); a line that cannot be converted ends nothing - one timeout later the connection is closed, and
-    nothing is delivered"""
+    nothing is delivered.  Oracle on the implementation, and the timed model with the vendor conversions plugged in."""
+    from harness.props import C18
+    from senaite.astm.adapters.biomerieux import mini_vidas
     vl = Stream("vendor-lines-and-silence")
+    now_hex = C18.NOW.strftime("%Y%m%d%H%M%S").encode().hex()
+    runs = []
     for _ in range(3000 if ctx.thorough else 400):
         T = r.choice([1, 2, 5, 15])
         fmt = r.choice(["astm", "lis2a", "json"])
@@ -330,47 +334,80 @@ def vendor_silence_stream(ctx, r):
         if not gens.is_vendor_line(line):
             continue
         t = 0
-        pre = []
+        evs = []
         if r.random() < 0.5:
-            pre.append((t, gens.ENQ))
+            evs.append(("r", t, gens.ENQ))
             for i in range(r.choice([0, 1, 2])):
                 t += r.randrange(0, T)
-                pre.append((t, gens.message_frames(r, seq=(i + 1) % 8, parts=1)[0][0]))
+                evs.append(("r", t, gens.message_frames(r, seq=(i + 1) % 8, parts=1)[0][0]))
             t += r.randrange(0, T)
-        c = impl.Conn(fmt=fmt, timeout=T)
-        for (tt, u) in pre:
-            c.loop.advance(tt)
-            c.event(("d", u))
-        c.loop.advance(t)
-        q0 = len(c.queue.items)
-        ob = c.event(("d", line))
-        delivered = len(c.queue.items) - q0
-        # optionally one more ordinary unit within the timeout: a fresh full timeout from there
+        line_at = len(evs)
+        evs.append(("r", t, line))
         t_last = t
-        after_unit = None
-        if r.random() < 0.3:
+        then_enq = r.random() < 0.3
+        if then_enq:
             t_last = t + r.randrange(0, T)
-            c.loop.advance(t_last)
-            after_unit = gens.ENQ
-            c.event(("d", after_unit))
-        fired = c.loop.advance(t_last + r.choice([T + 1, 5 * T, 40 * T]))
-        case = {"format": fmt, "timeout": T, "before": [[tt, u.hex()] for tt, u in pre], "line_at": t, "line": line.hex(),
-                "kind": kind, "then_enq_at": t_last if after_unit else None}
-        vl.case(case, nontrivial=not converts)
-        vl.count(kind)
-        armed = (not converts) or after_unit is not None
-        exp = [t_last + T] if armed else []
-        if converts and delivered != 1:
-            vl.fail(dict(case, delivered=delivered), "a convertible vendor line delivered %d messages" % delivered,
-                    "vendor-lines-and-silence/delivery")
-        elif not converts and delivered:
-            vl.fail(dict(case, delivered=delivered), "a vendor line that cannot be converted delivered %d messages" % delivered,
-                    "vendor-lines-and-silence/delivery")
-        elif fired != exp:
-            vl.fail(dict(case, closes_at=fired, expected=exp),
-                    "after %s followed by silence the timer closes at %s, expected %s" % (
-                        "a converted vendor line" if converts else "a vendor line that cannot be converted", fired, exp),
-                    "vendor-lines-and-silence/" + ("never-closed" if not fired else "closed"))
+            evs.append(("r", t_last, gens.ENQ))
+        evs.append(("i", t_last + r.choice([T + 1, 5 * T, 40 * T])))
+        if any(gens.is_vendor_line(e[2]) for k_, e in enumerate(evs) if e[0] == "r" and k_ != line_at):
+            continue
+        runs.append((fmt, T, evs, line_at, converts, kind, then_enq, t_last))
+    lines = ["tvrecv %s %d %s %s" % (fmt, T, now_hex, " ".join(tev_hex(e) for e in evs)) for fmt, T, evs, *_ in runs]
+    model = common.drive(lines) if ctx.driver_ok else [None] * len(lines)
+    orig_dt = mini_vidas.datetime
+    mini_vidas.datetime = C18.FakeNow
+    try:
+        for (fmt, T, evs, line_at, converts, kind, then_enq, t_last), ml in zip(runs, model):
+            c = impl.Conn(fmt=fmt, timeout=T)
+            fired_all, obs = [], []
+            delivered_by_line = 0
+            for k_, e in enumerate(evs):
+                fired = c.loop.advance(e[1])
+                fired_all.append(fired)
+                if e[0] == "r":
+                    q0 = len(c.queue.items)
+                    ob = c.event(("d", e[2]))
+                    obs.append(ob)
+                    if k_ == line_at:
+                        delivered_by_line = len(c.queue.items) - q0
+                else:
+                    obs.append(None)
+            case = {"format": fmt, "timeout": T, "events": [tev_hex(e) for e in evs], "kind": kind}
+            vl.case(case, nontrivial=not converts)
+            vl.count(kind)
+            armed = (not converts) or then_enq
+            exp = [t_last + T] if armed else []
+            closes_at = [x for f_ in fired_all for x in f_]
+            if converts and delivered_by_line != 1:
+                vl.fail(dict(case, delivered=delivered_by_line), "a convertible vendor line delivered %d messages" % delivered_by_line,
+                        "vendor-lines-and-silence/delivery")
+            elif not converts and delivered_by_line:
+                vl.fail(dict(case, delivered=delivered_by_line), "a vendor line that cannot be converted delivered %d messages"
+                        % delivered_by_line, "vendor-lines-and-silence/delivery")
+            elif closes_at != exp:
+                vl.fail(dict(case, closes_at=closes_at, expected=exp),
+                        "after %s followed by silence the timer closes at %s, expected %s" % (
+                            "a converted vendor line" if converts else "a vendor line that cannot be converted", closes_at, exp),
+                        "vendor-lines-and-silence/" + ("never-closed" if not closes_at else "closed"))
+            if ml is not None:
+                if not ml.startswith("ok "):
+                    vl.disagree(case, "-", ml[:200])
+                    continue
+                mouts = ml[3:].split(" | ")[0].split(" ; ")
+                for k_, (e, mo_s) in enumerate(zip(evs, mouts)):
+                    parts = mo_s.split(" ")
+                    mf = [] if parts[0] == "-" else [int(x) for x in parts[0].split(",")]
+                    why = None
+                    if mf != fired_all[k_]:
+                        why = "fired impl=%s model=%s" % (fired_all[k_], mf)
+                    elif obs[k_] is not None:
+                        mo = recv.parse_model("ok " + " ".join(parts[1:]))[0]
+                        why = oracles.observe_matches(mo, obs[k_], recv.to_json_real)
+                    if why:
+                        vl.disagree(dict(case, at=k_), "impl: " + why, "model: " + mo_s[:200])
+                        break
+    finally:
+        mini_vidas.datetime = orig_dt
     return vl
 
 
